@@ -319,7 +319,7 @@ std::string describe_struct64(uint64_t idx) {
 // [varint u32][varint i32][u32][i32][f32][sentinel byte] into one stream and
 // read back. kExact selects the ASan slice flavour (exact-size heap block,
 // every truncated varint prefix).
-template <bool kExact>
+template <bool kExact, bool kVar, bool kSca>
 void run_ints32_chunk(uint64_t chunk, mc::Ctx &ctx) {
   EncoderBuffer eb;
   uint64_t lens[6] = {0, 0, 0, 0, 0, 0};
@@ -331,12 +331,17 @@ void run_ints32_chunk(uint64_t chunk, mc::Ctx &ctx) {
     float f;
     memcpy(&f, &u, 4);
     eb.Clear();
-    bool ok = EncodeVarint<uint32_t>(u, &eb);
-    const size_t l1 = eb.size();
-    ok = EncodeVarint<int32_t>(s, &eb) && ok;
-    const size_t l2 = eb.size() - l1;
-    ok = eb.Encode(u) && eb.Encode(s) && eb.Encode(f) && eb.Encode(static_cast<uint8_t>(0xA5)) && ok;
-    ok = ok && eb.size() == l1 + l2 + 13;
+    bool ok = true;
+    size_t l1 = 0, l2 = 0;
+    if (kVar) {
+      ok = EncodeVarint<uint32_t>(u, &eb);
+      l1 = eb.size();
+      ok = EncodeVarint<int32_t>(s, &eb) && ok;
+      l2 = eb.size() - l1;
+    }
+    if (kSca) ok = eb.Encode(u) && eb.Encode(s) && eb.Encode(f) && ok;
+    ok = eb.Encode(static_cast<uint8_t>(0xA5)) && ok;
+    ok = ok && eb.size() == l1 + l2 + (kSca ? 12 : 0) + 1;
     bool good = ok;
     if (good) {
       uint32_t ou = 0x5a5a5a5a, ou2 = 0x5a5a5a5a;
@@ -344,52 +349,56 @@ void run_ints32_chunk(uint64_t chunk, mc::Ctx &ctx) {
       float of = 0;
       uint8_t sent = 0;
       DecoderBuffer db;
+      auto readall = [&]() {
+        if (kVar && !(DecodeVarint<uint32_t>(&ou, &db) && ou == u && DecodeVarint<int32_t>(&os, &db) && os == s)) return false;
+        if (kSca && !(db.Decode(&ou2) && ou2 == u && db.Decode(&os2) && os2 == s && db.Decode(&of) && memcmp(&of, &u, 4) == 0))
+          return false;
+        return db.Decode(&sent) && sent == 0xA5 && db.remaining_size() == 0;
+      };
       if (kExact) {
         Exact ex(eb.data(), eb.size());
         db.Init(ex.p, ex.n);
-        good = DecodeVarint<uint32_t>(&ou, &db) && ou == u && DecodeVarint<int32_t>(&os, &db) && os == s &&
-               db.Decode(&ou2) && ou2 == u && db.Decode(&os2) && os2 == s && db.Decode(&of) && memcmp(&of, &u, 4) == 0 &&
-               db.Decode(&sent) && sent == 0xA5 && db.remaining_size() == 0 && !db.Decode(&ou2) &&
-               !DecodeVarint<uint32_t>(&ou, &db);
+        good = readall() && !db.Decode(&ou2) && !DecodeVarint<uint32_t>(&ou, &db);
       } else {
         db.Init(eb.data(), eb.size());
-        good = DecodeVarint<uint32_t>(&ou, &db) && ou == u && DecodeVarint<int32_t>(&os, &db) && os == s &&
-               db.Decode(&ou2) && ou2 == u && db.Decode(&os2) && os2 == s && db.Decode(&of) && memcmp(&of, &u, 4) == 0 &&
-               db.Decode(&sent) && sent == 0xA5 && db.remaining_size() == 0;
+        good = readall();
       }
     }
     if (!good) {
       // slow path: find out which primitive failed and how
       int len;
       bool any = false;
-      const char *w = varint_rt<uint32_t, kExact>(u, eb, &len);
+      const char *w = kVar ? varint_rt<uint32_t, kExact>(u, eb, &len) : nullptr;
       if (w) ctx.fail(std::string("varint:u32:") + w + "|len" + std::to_string(ref_len(u)), "value " + show_val(u)), any = true;
-      w = varint_rt<int32_t, kExact>(s, eb, &len);
+      w = kVar ? varint_rt<int32_t, kExact>(s, eb, &len) : nullptr;
       if (w) ctx.fail(std::string("varint:i32:") + w + "|len" + std::to_string(ref_len(s)), "value " + show_val(s)), any = true;
-      w = scalar_rt<uint32_t, kExact>(u, eb);
+      w = kSca ? scalar_rt<uint32_t, kExact>(u, eb) : nullptr;
       if (w) ctx.fail(std::string("scalar:u32:") + w, "value " + show_val(u)), any = true;
-      w = scalar_rt<int32_t, kExact>(s, eb);
+      w = kSca ? scalar_rt<int32_t, kExact>(s, eb) : nullptr;
       if (w) ctx.fail(std::string("scalar:i32:") + w, "value " + show_val(s)), any = true;
-      w = scalar_rt<float, kExact>(f, eb);
+      w = kSca ? scalar_rt<float, kExact>(f, eb) : nullptr;
       if (w) ctx.fail(std::string("scalar:f32:") + w, "value " + show_val(f)), any = true;
       if (!any) ctx.fail("ints32:concatenated-stream-mismatch", "value " + show_val(u));
     }
-    if (kExact) {
+    if (kExact && kVar) {
       const char *w = varint_truncated<uint32_t>(u, eb);
       if (w) ctx.fail(std::string("varint:u32:") + w + "|len" + std::to_string(ref_len(u)), "value " + show_val(u));
       w = varint_truncated<int32_t>(s, eb);
       if (w) ctx.fail(std::string("varint:i32:") + w + "|len" + std::to_string(ref_len(s)), "value " + show_val(s));
     }
-    const char *z = zigzag_rt<int32_t>(s);
-    if (z) ctx.fail(std::string("zigzag:i32:") + z, "value " + show_val(s));
-    lens[l1 <= 5 ? l1 : 0]++;
-    lens[l2 <= 5 ? l2 : 0]++;
-    multi += (l1 > 1) + (l2 > 1);
+    if (kVar) {
+      const char *z = zigzag_rt<int32_t>(s);
+      if (z) ctx.fail(std::string("zigzag:i32:") + z, "value " + show_val(s));
+      lens[l1 <= 5 ? l1 : 0]++;
+      lens[l2 <= 5 ? l2 : 0]++;
+      multi += (l1 > 1) + (l2 > 1);
+    }
   }
-  for (int l = 0; l <= 5; ++l)
-    if (lens[l]) ctx.count(l ? "varint32_len" + std::to_string(l) : std::string("varint32_len_other"), lens[l]);
-  ctx.count("scalar32_values", 3 * 65536);
-  if (!ctx.replay) ctx.sh->distinct_n[1].fetch_add(multi, std::memory_order_relaxed);
+  if (kVar)
+    for (int l = 0; l <= 5; ++l)
+      if (lens[l]) ctx.count(l ? "varint32_len" + std::to_string(l) : std::string("varint32_len_other"), lens[l]);
+  if (kSca) ctx.count("scalar32_values", 3 * 65536);
+  if (kVar && !ctx.replay) ctx.sh->distinct_n[1].fetch_add(multi, std::memory_order_relaxed);
 }
 
 // ASan slices of the 2^32 sweep (chunk = 2^16 values): slice A = chunks around
@@ -760,20 +769,22 @@ uint32_t width_value(int n, int k) {
   }
 }
 const uint64_t kWV = 32 * 8;  // (width, value) combinations
-// general coders: singles + all pairs; symbol coder: singles, (x,(1,1)), ((1,1),x)
-uint64_t widths_size(int cid) { return 2 * (cid == SYMBOL ? 3 * kWV : kWV + kWV * kWV); }
+// general coders: singles + all pairs, each with and without interleaved
+// EncodeBit calls; symbol coder (values above 2^18 cost O(value) time and
+// memory there): singles, singles with interleaved EncodeBit, (x,(1,1)),
+// ((1,1),x).
+uint64_t widths_size(int cid) { return cid == SYMBOL ? 4 * kWV : 2 * (kWV + kWV * kWV); }
 void widths_from_index(uint64_t idx, int cid, Calls *cs) {
-  const uint64_t half = widths_size(cid) / 2;
-  const bool mix = idx >= half;
-  idx %= half;
+  bool mix;
   int a = -1, b = -1;  // (width,value) ids, -2 = the fixed call Bits32(1,1)
   if (cid == SYMBOL) {
     const int which = static_cast<int>(idx / kWV);
     const int x = static_cast<int>(idx % kWV);
-    if (which == 0) a = x;
-    else if (which == 1) { a = x; b = -2; }
+    mix = which == 1;
+    if (which <= 1) a = x;
+    else if (which == 2) { a = x; b = -2; }
     else { a = -2; b = x; }
-  } else if (idx < kWV) {
+  } else if (mix = idx >= widths_size(cid) / 2, idx %= widths_size(cid) / 2, idx < kWV) {
     a = static_cast<int>(idx);
   } else {
     idx -= kWV;
@@ -1249,12 +1260,22 @@ int main(int argc, char **argv) {
   if (sweep) {
     // part run at -O2: all 2^32 values
     mc::Space a;
-    a.name = "ints32_all";
+    a.name = "varint32_all";
     a.size = 65536;
-    a.cases_per_index = 5 * 65536;
-    a.run = [](uint64_t idx, mc::Ctx &ctx) { run_ints32_chunk<false>(idx, ctx); };
-    a.describe = [=](uint64_t idx) { return ints32_describe(idx, ""); };
+    a.cases_per_index = 2 * 65536;
+    a.run = [](uint64_t idx, mc::Ctx &ctx) { run_ints32_chunk<false, true, false>(idx, ctx); };
+    a.describe = [=](uint64_t idx) { return ints32_describe(idx, "[varint u32, varint i32, zig-zag only] "); };
     R.add(a);
+    // Encode<T>/Decode<T> is a memcpy: its 2^32 sweep runs in the thorough tier
+    // only (quick covers it on the ASan slice).
+    mc::Space b;
+    b.name = "scalar32_all";
+    b.size = 65536;
+    b.quick = false;
+    b.cases_per_index = 3 * 65536;
+    b.run = [](uint64_t idx, mc::Ctx &ctx) { run_ints32_chunk<false, false, true>(idx, ctx); };
+    b.describe = [=](uint64_t idx) { return ints32_describe(idx, "[Encode<u32>, Encode<i32>, Encode<f32> only] "); };
+    R.add(b);
     R.require("varint32_len5", 1);
     R.require("varint32_len1", 1);
     return R.main();
@@ -1288,7 +1309,7 @@ int main(int argc, char **argv) {
     sp.size = chunks->size();
     sp.quick = k == 0;
     sp.cases_per_index = 5 * 65536;
-    sp.run = [=](uint64_t idx, mc::Ctx &ctx) { run_ints32_chunk<true>((*chunks)[idx], ctx); };
+    sp.run = [=](uint64_t idx, mc::Ctx &ctx) { run_ints32_chunk<true, true, true>((*chunks)[idx], ctx); };
     sp.describe = [=](uint64_t idx) {
       return ints32_describe((*chunks)[idx], "ASan slice (exact-size block, every truncated varint prefix): ");
     };
